@@ -195,7 +195,8 @@ def one_case(acc, plan, case, rowname, wordrepr):
             acc.violation('%s:%s:out-of-range' % (plan.prop, row), case, {'keys': res.range_bad, 'reference': res.status})
         elif res.status == 'skip' and 'instruction fetch aborts' in str(res.detail) and res.exc is None and res.post is not None and res.step == 0:
             # armulator reports an aborting instruction fetch through its Data Abort path (a Prefetch Abort is not implemented, so there is no exact
-            # oracle) - but whatever entry it takes, the SPSR of the mode it entered must hold the interrupted CPSR
+            # oracle) - but whatever entry it takes, (1) the SPSR of the mode it entered must hold the interrupted CPSR, and (2) the instruction whose
+            # fetch aborted was not executed: an exception mode was entered, the unbanked registers and every memory byte are what they were
             pre, post = res.pre, res.post
             m = post['cpsr'] & 31
             name = gen.MODE_NAME.get(m)
@@ -203,6 +204,10 @@ def one_case(acc, plan, case, rowname, wordrepr):
             if name and m != (pre['cpsr'] & 31) and ('spsr_' + name) in post and post['spsr_' + name] != pre['cpsr']:
                 acc.violation('%s:fetch-abort:spsr-is-not-the-interrupted-cpsr' % plan.prop, case,
                               {'cpsr_before': pre['cpsr'], 'spsr_' + name: post['spsr_' + name], 'entered': name})
+            changed = [k for k in post if (k.startswith('mem') or (k.startswith('R.R') and k.endswith('usr') and k[3:-3].isdigit() and int(k[3:-3]) < 8)) and post[k] != pre.get(k)]
+            if name not in ('abt', 'hyp', 'mon') or changed:
+                acc.violation('%s:fetch-abort:instruction-executed-although-its-fetch-aborts' % plan.prop, case,
+                              {'mode_after': name, 'changed': changed[:6], 'pc_after': post.get('R.PC')})
         return res
     if res.range_bad:
         acc.violation('%s:%s:out-of-range' % (plan.prop, row), case, {'keys': res.range_bad})
@@ -268,12 +273,36 @@ def shard(plan_ref, seed, examples):
             hooked = plan.hooked[rng.randrange(len(plan.hooked))]
             if 'code_base' not in kw and kw.get('mmu', False) is False and kw.get('mpu') is False and rng.random() < 0.05:
                 kw.update(code_base=0xFFFFFF00, pc_top=True)          # the instruction in the last 2..8 bytes below 2^32
+            straddle = tn == 't32' and gen.CONFIGS[cfgname].get('memory_system_architecture', 'PMSA') == 'PMSA' and rng.random() < 0.05
+            if straddle:
+                kw.update(code_base=0x8000, pc_off=0x3E, mpu=True)
+                kw.pop('pc_top', None)
             case = gen.step_case(rng, cfgname, thumb, code, steps=plan.steps, hooked=hooked, **kw)
             if plan.tweak_case:
                 plan.tweak_case(rng, row, w, case)
+            if straddle:
+                straddle_regions(rng, case)
             one_case(acc, plan, case, name, '%#x' % w)
     body()
     return acc
+
+
+def straddle_regions(rng, case):
+    """a 32-bit Thumb instruction whose two halfwords lie in different MPU regions (PC = 0x807E): the second halfword is a separate fetch with its own
+    permission check - it aborts when the second region denies the access, and the instruction executes normally when it does not"""
+    st_ = case['state']
+    st_['R.PC'] = 0x807E
+    n = gen.DEFAULT_MPU_REGIONS
+    for r_ in range(n):
+        st_['drsrs[%d]' % r_] = 0
+    regions = [(0, 6, 3), (0x8000, 6, 3), (0x8080, 6, rng.choice((0, 1, 3, 3, 5, 6, 2))), (gen.DATA[0], 8, 3), (0xFFFF0000, 6, 3)]
+    if rng.random() < 0.3:
+        regions.pop(2)               # no region behind the first: background fault (or the default map for privileged code with SCTLR.BR)
+    for i, (base, rsize, ap) in enumerate(regions):
+        st_['drsrs[%d]' % i], st_['drbars[%d]' % i], st_['dracrs[%d]' % i] = (rsize << 1) | 1, base, ap << 8
+    st_['mpuir'] = n << 8
+    st_['sctlr'] = (st_['sctlr'] | 1) & ~(1 << 17) | (rng.getrandbits(1) << 17)
+    case['poke'] = [p_ for p_ in case['poke'] if p_[0] != 0x8040] + [[0x807E, case['poke'][0][1]]]
 
 
 def shard_repeat(plan_ref, seed, examples):
@@ -422,6 +451,13 @@ def witness_tasks(ctx, plan_ref, base=950, nparts=8):
     return [(shard_witness, (plan_ref, i, nparts, ctx.shard_seed(base + i), ctx.n(10, 60))) for i in range(nparts)]
 
 
+def history_tasks(ctx, plan_ref, base=800, nparts=8, quick=350, thorough=6000):
+    """histories on one long-lived instance (vf/props/history.py): the plan's instruction several times between instructions and events that change
+    rarely observed state, every step compared with the reference"""
+    from vf.props import history as _h
+    return [(_h.shard_history, (plan_ref, ctx.shard_seed(base + i), ctx.n(quick, thorough))) for i in range(nparts)]
+
+
 def replay_multi(case):
     res = diff.run(case)
     if res.status in ('unpred', 'skip'):
@@ -459,12 +495,14 @@ def minimise(plan, case, bucket):
     return cur
 
 
-def run_plan(ctx, plan_ref, plan, shards=32, quick=120, thorough=2400, witnesses=True, repeat=True):
+def run_plan(ctx, plan_ref, plan, shards=32, quick=120, thorough=2400, witnesses=True, repeat=True, history=True):
     tasks = [(shard, (plan_ref, ctx.shard_seed(i), ctx.n(quick, thorough))) for i in range(shards)]
     if witnesses:
         tasks += witness_tasks(ctx, plan_ref)
     if repeat:
         tasks += [(shard_repeat, (plan_ref, ctx.shard_seed(900 + i), ctx.n(120, 2400))) for i in range(8)]
+    if history:
+        tasks += history_tasks(ctx, plan_ref)
     ctx.pmap(_dispatch, tasks)
     # minimise the first case of every violation bucket
     for b, v in list(ctx.acc.viol.items()):
